@@ -253,7 +253,20 @@ func guidReplay(args []string) int {
 	report := guidReport{Errs: map[string]int64{}}
 	shapes := map[string]bool{}
 	nodesR := []int64{0, 1, 511, 1023}
-	for i, e := range edges {
+	// the abstract clock differences of an edge (lastTimestamp / the high-water mark relative to the clock) are replayed at
+	// several magnitudes: one tick is one pseudo-millisecond, a stepped clock is seconds or days (the order is what the
+	// abstraction keeps, so the predicted outcome is the same)
+	scales := []int64{1, 2500, 90000000}
+	for j := 0; j < len(edges)*len(scales); j++ {
+		i, scale := j/len(scales), scales[j%len(scales)]
+		e := edges[i]
+		if scale != 1 && e.LastTs == e.Clock && e.LastTs2 == e.Clock && (e.LastID[0] == e.Clock || e.LastID[0] == 0) {
+			continue // no clock difference in this edge
+		}
+		e.LastTs, e.LastTs2 = e.Clock+(e.LastTs-e.Clock)*scale, e.Clock+(e.LastTs2-e.Clock)*scale
+		if !(e.LastID[0] == 0 && e.LastID[1] == 0 && e.LastID[2] == 0) {
+			e.LastID = []int64{e.Clock + (e.LastID[0]-e.Clock)*scale, e.LastID[1], e.LastID[2]}
+		}
 		nodeR := nodesR[i%len(nodesR)]
 		ok := false
 		for attempt := 0; attempt < 20 && !ok; attempt++ {
